@@ -29,6 +29,11 @@ PROGRAMS = [
     # trailing blanks inside a string literal, a tab, a form feed, a trailing comment
     {"id": "whitespace", "text": 's = """first\n    \n\tthird  \n"""\nif s:\n    t = (1,\n\n         2)   # c\n\x0c\nu = 3\n'},
 ]
+# a literal backslash-n inside the program text (escape in a string, raw string, comment): only the -c
+# option may turn it into a newline
+_BSN = 'x = "a\\nb"\ny = r"c\\nd"  # \\n\nz = 1\n'
+PROGRAMS.append({"id": "backslash_n", "text": _BSN,
+                 "values": {"c": "z = 1", "e": " + linesep + ".join(repr(ln) for ln in _BSN.split("\n")), "m": "verifmod_backslash_n"}})
 # two sources given the IDENTICAL string are still two sources
 PROGRAMS.append({"id": "same_c_e", "text": "pass\n", "values": {"c": "'pass'", "e": "'pass'", "m": "verifmod_same_c_e"}})
 PROGRAMS.append({"id": "same_c_m", "text": "x = 1\n", "values": {"c": "verifmod_same_c_m", "e": "'x = 1'", "m": "verifmod_same_c_m"}})
